@@ -19,6 +19,11 @@ def run_buffers(facts, out, eff=None):
     if a is None:
         return eff
     fields = [f['name'] for f in a['variants'][0]['fields'] if f['name'] not in KBU_EXCLUDED_FIELDS[adt]]
+    for f in a['variants'][0]['fields']:
+        okp = not f.get('reachable', f['pub'])
+        out.add('KBU', adt, 'field-private:' + f['name'], loc_of(a['sp']), okp,
+                '' if okp else 'scratch field `%s` of CurveBuffers is reachable from outside the crate' % f['name'],
+                ordinal=False)
     out.anchor('KBU', 'CurveBuffers scratch fields', len(fields) >= 3, str(fields))
     roots = []
     for inst in facts.instances:
@@ -96,6 +101,13 @@ def run_cache(facts, out):
     out.anchor('CI', 'struct owning Option<Curve>', owner is not None, str(owner))
     if owner is None:
         return
+    # PV: closed world of this rule -- no field of the cache owner is reachable from outside the
+    # crate (effective visibility), so every writer and every literal is inside the crate
+    for f in facts.adts[owner]['variants'][0]['fields']:
+        okp = not f.get('reachable', f['pub'])
+        out.add('CI', owner, 'field-private:' + f['name'], loc_of(facts.adts[owner]['sp']), okp,
+                '' if okp else ('field `%s` of `%s` is reachable from outside the crate: the cache/key fields can be '
+                                'changed without invalidation') % (f['name'], owner), ordinal=False)
     # key fields: fields of `owner` passed to Curve::new / BorrowedCurve::new in its methods
     key_fields = set()
     ctor_names = ('section::hit_objects::slider::curve::Curve::new',
